@@ -66,7 +66,7 @@ type Network struct {
 	Packets []Packet // everything the library put on the wire
 	Env     Environment
 	nextEph int
-	ReadOps int // read operations performed on any socket
+	ReadOps int      // read operations performed on any socket
 	ReadLog [][]byte // every datagram a UDP read returned, in order
 	// HostIPs are the addresses of the simulated host (a bind to another address fails).
 	Errors []string
